@@ -72,7 +72,8 @@ CLAIMED = {
             "keep-count is min(user limit, number strictly above relative tolerance), that K==0 cannot reach the empty slice "
             "[:-0], that the spectrum is copied first, that the wrappers apply one mask to all factors, and that each scalar-or-dict "
             "dispatch of a user limit tests the limit whose value it selects, that no store selects by position instead of by size, that "
-            "the ordering key per `which` is right, that masks hit the leg they were computed for. The Eckart-Young "
+            "the ordering key per `which` is right, that masks hit the leg they were computed for, that entries masked off by the block "
+            "stage rank below every surviving entry and are not counted by the tolerance count. The Eckart-Young "
             "optimality/error identity itself is numerical and NOT decided.",
             "trusted: argsort is ascending; python ast",
             "DESIGN.md §4 C13"),
@@ -143,7 +144,7 @@ CLAIMED = {
             "Partial: decides for all inputs that every per-leg lookup, slice bound and typed helper argument in the tensor layer "
             "uses an index of the right space (meta / logical-native / native; joins of different spaces alarm at native sinks), "
             "that positional helpers receive materialised tensors, that results resetting the lazy permutation carry struct/hfs "
-            "permuted through trans, that user-ordered per-leg data is combined with native fields only after the permutation was "
+            "permuted through trans (and a result whose leg structure was rebuilt from scratch resets trans), that user-ordered per-leg data is combined with native fields only after the permutation was "
             "accounted for, that s/hfs/mfs of results come from the same leg sequences, that negative axes are normalised first, "
             "that binary kernels promote dtypes and update output-buffer views in place, that sequences paired position by position "
             "are enumerated in the same leg order (engine seqorder), that fusion metadata of factors comes from the leg group it "
@@ -200,7 +201,7 @@ CLAIMED = {
             "handled first; that every returned vector is a Tensor.add combination of the orthonormal basis (and the initial guess), "
             "and Tensor.add rejects other charges, hence results stay in the symmetry sector of the start vector; that expmv multiplies "
             "the accumulated norm back on every path iff normalize is False; that lin_solver reports |f(x) - b| recomputed from the "
-            "returned x; that the Krylov loop runs up to the caller's ncv unmodified; that no parameter is ignored (named exceptions). Accuracy to tolerance, the adaptive controller of expmv and the variational property of Ritz values are "
+            "returned x; that the Krylov loop runs up to the caller's ncv unmodified and the first Krylov dimension of expmv is not capped by a quantity of another kind (block count); that no parameter is ignored (named exceptions). Accuracy to tolerance, the adaptive controller of expmv and the variational property of Ritz values are "
             "numerical and NOT decided.",
             "trusted: python ast, CFG builder; the structural rules name the solver's local variables (a rename is reported as a vanished "
             "anchor, exit 2, not as a violation)",
